@@ -1,2 +1,72 @@
+import FoxModel.Props.C01
+/-
+  Property C09 — hostname routes match the whole host, path-only routes are the fallback.
+  (The declarative meaning of `specHost` — label-for-label equality, never a prefix/suffix/substring match — is proved
+  in Props/C01Spec; here: the model of `roots.lookup` / `lookupByDomain` versus `specHost` and the staging.)
+-/
 namespace Fox.C09
+open Fox Fox.Model Fox.Spec
+
+/-- **whole host**: the hostname stage returns a direct match exactly as `specHost` enumerates it: the host is consumed
+    label by label (static text before `{param}`, a param standing for one non-empty dot-free label part) and the path is
+    entered only when the whole host has been consumed at the end of a node key -/
+theorem host_stage_eq_spec {root : Node} (hw : wfKids root.children = true) (hd : nodupB (kindsOf root.children) = true)
+    (hh : hostOkKids root.children = true) (host path : Bytes) (hs : SLASH ∉ host) :
+    pick (hostWalk root [] host path []) = (match specHost (sufsKids root.children) host path [] with
+      | (r, ps) :: _ => Result.found r ps false
+      | [] => firstTsr (hostWalk root [] host path [])) :=
+  hostLookup_refines hw hd hh host path hs
+
+/-- a method whose routes have no hostname ignores the Host altogether -/
+theorem pathonly_ignores_host (rs : Roots) (m h₁ h₂ path : Bytes) (root c : Node)
+    (hm : methodRoot rs m = some root) (hc : root.children = [c]) (hs : startsWithSlash c.key = true) :
+    lookup rs m h₁ path = lookup rs m h₂ path := by
+  unfold lookup
+  simp [hm, hc, hs]
+
+/-- an empty Host (after stripping port and trailing dot) goes straight to the path-only routes -/
+theorem empty_host_is_pathonly (rs : Roots) (m hostPort path : Bytes) (root : Node)
+    (hm : methodRoot rs m = some root) (he : stripHostPort hostPort = []) :
+    lookup rs m hostPort path =
+      (match root.children.find? (fun c => startsWithSlash c.key) with
+       | some c => pick (pathEvents c path [])
+       | none => .none) := by
+  unfold lookup
+  simp only [hm, he]
+  cases hcs : root.children with
+  | nil => rfl
+  | cons c0 cs0 =>
+    simp only
+    split
+    · rfl
+    · simp
+      rfl
+
+/-- **fallback**: path-only routes are consulted exactly when the hostname stage yields neither a direct match nor a
+    trailing-slash candidate; whenever the hostname stage yields something, that answer is final -/
+theorem host_answer_is_final (rs : Roots) (m hostPort path : Bytes) (root : Node) (r : Route) (ps : Binds) (tsr : Bool)
+    (hm : methodRoot rs m = some root)
+    (hmixed : ¬ (root.children.length == 1 && (root.children.find? (fun c => startsWithSlash c.key)).isSome) = true)
+    (hne : stripHostPort hostPort ≠ [])
+    (hhost : pick (hostWalk root [] (stripHostPort hostPort) path []) = .found r ps tsr) :
+    lookup rs m hostPort path = .found r ps tsr := by
+  unfold lookup
+  simp only [hm]
+  cases hcs : root.children with
+  | nil =>
+    exfalso
+    cases hh : stripHostPort hostPort with
+    | nil => exact hne hh
+    | cons b rest =>
+      rw [hh] at hhost
+      unfold hostWalk at hhost
+      rw [hcs] at hhost
+      unfold hostKids at hhost
+      simp [pick, firstTsr] at hhost
+  | cons c0 cs0 =>
+    rw [hcs] at hmixed
+    have hne' : (stripHostPort hostPort == []) = false := by simpa using hne
+    simp only [hmixed, hne', hhost]
+    simp
+
 end Fox.C09
